@@ -384,6 +384,61 @@ fn run_versioned(ctx: &Ctx, cn: &Cn, samples: &Samples) {
     }
 }
 
+/// Endpoints declared with the #[endpoint] macro: the limit written in the attribute is the one in
+/// force whatever other attributes stand beside it (unpublished, deprecated, tags).
+fn run_macro(ctx: &Ctx, cn: &Cn) -> Value {
+    let d = 16usize;
+    let srv = LiveServer::start(zoo9::api(&[]), zoo9::ZooCtx::default(), ServerOpts { default_body_max: d, ..Default::default() }).unwrap_or_else(|e| machinery_failure(&e));
+    let mut ka = KeepAlive::new(srv.addr);
+    let mut n_req = 0u64;
+    for (path, op, o) in zoo9::MACRO_LIMITS {
+        let l = o.unwrap_or(d);
+        for n in [0usize, 1, l.saturating_sub(1), l, l + 1, d, d + 1, 2 * l + 1, 1000] {
+            let Some((body, want)) = body_of(Ext::Raw, n, l) else { continue };
+            for chunked in [false, true] {
+                n_req += 1;
+                cn.requests.fetch_add(1, Ordering::Relaxed);
+                let req = if chunked { chunked_request("PUT", path, "content-type: application/octet-stream\r\n", &[&body]) } else { request("PUT", path, "content-type: application/octet-stream\r\n", &body) };
+                let r = ka.roundtrip(&req, false, T);
+                let max_seen = srv.server().app_private().max_seen.lock().unwrap().get(*op).copied().unwrap_or(0) as usize;
+                let mut why: Vec<&str> = vec![];
+                match &r {
+                    ReadOutcome::Resp(resp) => {
+                        if n <= l {
+                            cn.within_limit.fetch_add(1, Ordering::Relaxed);
+                            let j = resp.json().unwrap_or(Value::Null);
+                            if resp.status != 200 {
+                                why.push("body within the limit refused");
+                            } else if !(j["len"] == want["len"] && j["fnv"] == want["fnv"] && j["limit"] == want["limit"]) {
+                                why.push("body within the limit not delivered intact (or wrong effective limit)");
+                            }
+                        } else {
+                            cn.over_limit.fetch_add(1, Ordering::Relaxed);
+                            if !(400..500).contains(&resp.status) {
+                                why.push(if resp.status == 200 { "body over the limit accepted" } else { "body over the limit not answered with 4xx" });
+                            }
+                        }
+                    }
+                    _ => why.push("no response"),
+                }
+                if max_seen > l {
+                    why.push("handler observed more body bytes than the limit");
+                }
+                if !why.is_empty() {
+                    ctx.report(Violation {
+                        sig: json!({"kind":"body_limit","extractor":"raw","why": why, "has_override": o.is_some(), "override_below_default": o.map(|x| x < d).unwrap_or(false), "frames": 1, "framing": "macro-declared endpoint", "endpoint": path}),
+                        case: json!({"kind":"live_request","server_default": d, "override": o, "extractor": "macro", "path": path, "body_len": n, "framing": if chunked {"chunked"} else {"content-length"}}),
+                        expected: json!({"effective_limit": l, "outcome": if n <= l {"200, intact"} else {"4xx"}}),
+                        observed: json!({"response": match &r { ReadOutcome::Resp(x) => x.to_json(), o => json!(format!("{o:?}")) }, "max_bytes_seen_by_handler": max_seen}),
+                    });
+                    srv.server().app_private().max_seen.lock().unwrap().insert(op.to_string(), 0);
+                }
+            }
+        }
+    }
+    json!({"requests": n_req, "endpoints": zoo9::MACRO_LIMITS.iter().map(|x| x.0).collect::<Vec<_>>()})
+}
+
 /// The same limits over HTTP/2 (hand-written client, prior knowledge): the body arrives as DATA
 /// frames cut at every point near the limit, with and without a content-length header, with an
 /// empty DATA frame in between.
@@ -508,7 +563,9 @@ fn main() {
         Ctx::replay_and_exit(&args, level, "E2-live", |ctx, case| {
             let d = case["server_default"].as_u64().unwrap() as usize;
             let o = case["override"].as_u64().map(|x| x as usize);
-            if case["framing"] == json!("http2") {
+            if case["extractor"] == json!("macro") {
+                run_macro(ctx, &cn);
+            } else if case["framing"] == json!("http2") {
                 run_h2(ctx, &cn);
             } else if case["extractor"] == json!("versioned") {
                 run_versioned(ctx, &cn, &Samples::new(0));
@@ -524,7 +581,9 @@ fn main() {
     par_for(defaults.len(), defaults.len(), 0, |i| run_config(&ctx, defaults[i], &overrides, &cn, &samples));
     run_versioned(&ctx, &cn, &samples);
     let h2 = run_h2(&ctx, &cn);
+    let mac = run_macro(&ctx, &cn);
     let cov = json!({
+        "macro_declared_endpoints": mac,
         "http2_slice": h2,
         "evaluations": cn.requests.load(Ordering::Relaxed),
         "distinct_nontrivial": cn.over_limit.load(Ordering::Relaxed),
